@@ -41,6 +41,62 @@ type GoR struct {
 	raiseBlocked bool
 	wouldBlock   int
 	daemon       bool // environment goroutine: may stay blocked at the end
+	pending      *pendingOp
+}
+
+// pendingOp describes the visible operation a goroutine is about to perform (for partial-order reduction):
+// two operations are dependent iff they touch a common synchronisation object (or one of them is global).
+type pendingOp struct {
+	objs []interface{}
+	all  bool
+}
+
+func dependent(a, b *pendingOp) bool {
+	if a == nil || b == nil {
+		return false // a goroutine that has not reached its first visible operation commutes with everything
+	}
+	if a.all || b.all {
+		return true
+	}
+	for _, x := range a.objs {
+		for _, y := range b.objs {
+			if x == y {
+				return true
+			}
+		}
+	}
+	return false
+}
+
+// opExecuted wakes the sleeping goroutines whose next operation depends on the one g performs now.
+func (ip *Interp) opExecuted(g *GoR) {
+	delete(ip.sleep, g)
+	for s := range ip.sleep {
+		if dependent(s.pending, g.pending) {
+			delete(ip.sleep, s)
+		}
+	}
+}
+
+// pick chooses the next goroutine among ordered candidates using sleep sets: candidates explored by an
+// earlier sibling branch sleep until a dependent operation happens (classic sleep-set partial-order reduction).
+func (ip *Interp) pick(cands []*GoR) *GoR {
+	var opts []*GoR
+	for _, c := range cands {
+		if !ip.sleep[c] {
+			opts = append(opts, c)
+		}
+	}
+	if len(opts) == 0 {
+		panic(&PathEnd{kind: "redundant", msg: "sleep-set blocked"})
+	}
+	k := ip.choose(len(opts))
+	if !ip.cfg.NoPOR {
+		for i := 0; i < k; i++ {
+			ip.sleep[opts[i]] = true
+		}
+	}
+	return opts[k]
 }
 
 // BlockedForever is raised inside verifrt.WouldBlock scopes.
@@ -153,8 +209,7 @@ func (ip *Interp) yieldAfterExit() {
 		ip.noneRunnable()
 		return
 	}
-	k := ip.choose(len(rs))
-	ip.switchTo(rs[k])
+	ip.switchTo(ip.pick(rs))
 }
 
 // noneRunnable is called by the current goroutine when nothing can run.
@@ -183,30 +238,33 @@ func (ip *Interp) noneRunnable() {
 	panic(&PathEnd{kind: "deadlock", msg: msg})
 }
 
-// schedPoint is a potential preemption before a visible operation.
-func (ip *Interp) schedPoint(what string) {
+// schedPoint is a potential preemption before a visible operation on the given synchronisation objects
+// (none given = an operation that depends on everything).
+func (ip *Interp) schedPoint(what string, objs ...interface{}) {
+	g := ip.cur
+	g.pending = &pendingOp{objs: objs, all: len(objs) == 0}
 	if len(ip.gs) <= 1 || ip.inInit {
 		return
 	}
-	if ip.preempts >= ip.maxPreempt {
-		return
+	if ip.preempts < ip.maxPreempt {
+		rs := ip.runnable(g)
+		if len(rs) > 0 {
+			c := ip.pick(append([]*GoR{g}, rs...))
+			if c != g {
+				ip.preempts++
+				ip.switchTo(c)
+			}
+		}
 	}
-	rs := ip.runnable(ip.cur)
-	if len(rs) == 0 {
-		return
-	}
-	k := ip.choose(len(rs) + 1)
-	if k == 0 {
-		return
-	}
-	ip.preempts++
-	ip.switchTo(rs[k-1])
+	ip.opExecuted(g)
 }
 
 // block parks the current goroutine until pred holds.
 func (ip *Interp) block(pred func() bool, what string) {
 	g := ip.cur
+	waited := false
 	for !pred() {
+		waited = true
 		g.blocked = true
 		g.canRun = pred
 		g.what = what
@@ -216,11 +274,13 @@ func (ip *Interp) block(pred func() bool, what string) {
 			g.blocked = false
 			continue
 		}
-		k := ip.choose(len(rs))
-		ip.switchTo(rs[k])
+		ip.switchTo(ip.pick(rs))
 		g.blocked = false
 	}
 	g.canRun = nil
+	if waited {
+		ip.opExecuted(g)
+	}
 }
 
 func (ip *Interp) spawn(d *deferred) {
@@ -231,7 +291,7 @@ func (ip *Interp) spawn(d *deferred) {
 	}
 	ip.gs = append(ip.gs, g)
 	ip.startGoroutine(g, func() { ip.invokeDeferred(d) }, false)
-	ip.schedPoint("go")
+	ip.schedPoint("go", g)
 }
 
 // ---------- channels ----------
@@ -333,7 +393,7 @@ func (ip *Interp) trySend(ch *ChanObj, v Value) bool {
 }
 
 func (ip *Interp) chanSend(ch *ChanObj, v Value) {
-	ip.schedPoint("chan send")
+	ip.schedPoint("chan send", ch)
 	if ip.trySend(ch, v) {
 		return
 	}
@@ -352,7 +412,7 @@ func (ip *Interp) chanSend(ch *ChanObj, v Value) {
 }
 
 func (ip *Interp) chanRecv(ch *ChanObj) (Value, bool) {
-	ip.schedPoint("chan recv")
+	ip.schedPoint("chan recv", ch)
 	if v, ok, done := ip.tryRecv(ch); done {
 		return v, ok
 	}
@@ -368,7 +428,7 @@ func (ip *Interp) chanRecv(ch *ChanObj) (Value, bool) {
 }
 
 func (ip *Interp) chanClose(ch *ChanObj) {
-	ip.schedPoint("close")
+	ip.schedPoint("close", ch)
 	if ch == nil {
 		ip.goPanic("close of nil channel")
 	}
@@ -386,20 +446,27 @@ func (ip *Interp) chanClose(ch *ChanObj) {
 
 func (ip *Interp) selectOp(fr *Frame, x *ssa.Select) Value {
 	tb := ip.tb
-	ip.schedPoint("select")
 	type arm struct {
 		ch   *ChanObj
 		send bool
 		val  Value
 	}
 	arms := make([]arm, len(x.States))
+	var objs []interface{}
 	for i, st := range x.States {
 		ch, _ := ip.get(fr, st.Chan).(*ChanObj)
 		arms[i] = arm{ch: ch, send: st.Dir == types.SendOnly}
 		if arms[i].send {
 			arms[i].val = ip.get(fr, st.Send)
 		}
+		if ch != nil {
+			objs = append(objs, ch)
+		}
 	}
+	if len(objs) == 0 {
+		objs = append(objs, x) // a select on nil channels only: touches nothing shared
+	}
+	ip.schedPoint("select", objs...)
 	result := func(idx int, rv Value, rok bool) Value {
 		tp := Tuple{ip.intConst(idx, 64), tb.BoolConst(rok)}
 		for i, st := range x.States {
